@@ -98,6 +98,13 @@ impl<L: Language> AstGrep<StrDoc<L>> {
   }
 }
 
+/// verification hooks of the document editing path (`Root::do_edit`)
+#[cfg(feature = "verif-hooks")]
+pub mod verif_hooks_edit {
+  pub use crate::node::verif_hooks::*;
+  pub use crate::source::verif_hooks::*;
+}
+
 #[cfg(test)]
 mod test {
   use super::*;
